@@ -588,7 +588,9 @@ class MyPyAstVisitor:
         func_defn = get_funcdef_definitions(func_node)
         return_stmts = find_return_stmts_recursive(func_defn)
         if return_stmts:
-            types = set()
+            # Keyed by the serialised type: tuple types compare equal regardless of element order, but (int, str) and
+            # (str, int) are different returns
+            types: dict[str, sds_types.AbstractType] = {}
             for return_stmt in return_stmts:
                 if return_stmt.expr is None:  # pragma: no cover
                     continue
@@ -603,18 +605,19 @@ class MyPyAstVisitor:
                             if not isinstance(conditional_branch, mp_nodes.CallExpr | mp_nodes.MemberExpr):
                                 type_ = mypy_expression_to_sds_type(conditional_branch)
                                 if isinstance(type_, sds_types.NamedType | sds_types.TupleType):
-                                    types.add(type_)
+                                    types.setdefault(str(type_.to_dict()), type_)
                     elif hasattr(return_stmt.expr, "node") and getattr(return_stmt.expr.node, "is_self", False):
                         # The result type is an instance of the parent class
                         expr_type = return_stmt.expr.node.type.type
-                        types.add(sds_types.NamedType(name=expr_type.name, qname=expr_type.fullname))
+                        self_type = sds_types.NamedType(name=expr_type.name, qname=expr_type.fullname)
+                        types.setdefault(str(self_type.to_dict()), self_type)
                     else:
                         type_ = mypy_expression_to_sds_type(return_stmt.expr)
                         if isinstance(type_, sds_types.NamedType | sds_types.TupleType):
-                            types.add(type_)
+                            types.setdefault(str(type_.to_dict()), type_)
 
             # We have to sort the list for the snapshot tests
-            return_stmt_types = list(types)
+            return_stmt_types = list(types.values())
             return_stmt_types.sort(
                 key=lambda x: (x.name if isinstance(x, sds_types.NamedType) else str(len(x.types))),
             )
